@@ -155,3 +155,46 @@ Definition Acyclic (s : store) (rank : nat -> nat) : Prop :=
 (* every pIsLocked node of the store can currently be evaluated *)
 Definition LocksDecided (s : store) (ival : nat -> option Z) (bval : nat -> option bool) : Prop :=
   forall n nd c, nth_error s n = Some nd -> p_lock nd = Some c -> Decided s ival bval c.
+
+(* --- stores on which the queries cannot fail ------------------------------------------------- *)
+(* "Every controlling node and every value source reachable from n evaluates without error and the
+   references are well-kinded."  [NodeOk] is the local condition on one node, [Evaluable n] asks it
+   of n and of every node n refers to, transitively. *)
+Section EvaluableSpec.
+Variable s : store.
+Variable ival : nat -> option Z.
+Variable bval : nat -> option bool.
+
+(* the kind offers an access query at all (Register, Category, Port, EnumEntry, Node do not) *)
+Definition HasQuery (k : kind) : Prop := match k with KRegister | KOther => False | _ => True end.
+
+Definition RefKind (P : kind -> Prop) (i : iop) : Prop := forall m, i = INode m -> P (kind_of s m).
+
+Definition ValueOk (v : vsrc) : Prop :=
+  match v with
+  | VOne i => RefKind NumericKind i
+  | VPValue p cs => forall m, m = p \/ In m cs -> NumericKind (kind_of s m)
+  | VPIndex idx es d =>
+    IntegerKind (kind_of s idx) /\ ival idx <> None /\
+    (forall j e, In (j, e) es -> RefKind NumericKind e) /\ RefKind NumericKind d
+  end.
+
+Definition NodeOk (nd : node) : Prop :=
+  HasQuery (nkind nd) /\
+  (* pIsImplemented / pIsAvailable / pIsLocked are Boolean or integer features that evaluate *)
+  (forall c, p_impl nd = Some c \/ p_avail nd = Some c \/ p_lock nd = Some c -> Decided s ival bval c) /\
+  match nkind nd with
+  | KInteger | KFloat => ValueOk (nvalue nd)
+  | KBoolean | KEnumeration | KCommand => exists i, nvalue nd = VOne i /\ RefKind NumericKind i
+  | KString => exists i, nvalue nd = VOne i /\ RefKind StringKind i
+  | KIntConverter | KConverter =>
+    VarKind (kind_of s (conv_pvalue nd)) /\ forall m, In m (vars nd) -> VarKind (kind_of s m)
+  | KIntSwissKnife | KSwissKnife => forall m, In m (vars nd) -> VarKind (kind_of s m)
+  | _ => True
+  end.
+
+Inductive Evaluable : nat -> Prop :=
+| Ev_node : forall n nd, nth_error s n = Some nd -> NodeOk nd ->
+    (forall m, In m (refs nd) -> Evaluable m) -> Evaluable n.
+
+End EvaluableSpec.
